@@ -15,6 +15,7 @@ pub struct HistCfg {
     pub threads: u32,
     pub nvars: u32,
     pub profile: Profile,
+    pub oom_ok: bool,
 }
 
 /// Run one random history; audits every `audit_every` steps and at the end; teardown check.
@@ -25,6 +26,7 @@ where
 {
     let mut rng = crate::rng::Rng::new(hseed);
     let mut w = World::<K>::new(cfg.nodes, cfg.cache, cfg.threads, cfg.nvars, format!("{label} kind={} hseed={hseed}", K::NAME));
+    w.oom_ok = cfg.oom_ok;
     println!("@@{{\"t\":\"case\",\"case\":{}}}", crate::ctx::json_str(&w.label));
     for i in 0..cfg.steps {
         let op = gen_op(&mut rng, w.n, w.hs.len(), K::HAS_QUANT, &cfg.profile);
@@ -41,6 +43,8 @@ where
     }
     w.audit(ctx, "end of history");
     ctx.count("history_steps", w.steps);
+    ctx.count("failed_operations_oom", w.ooms);
+    ctx.count("background_gcs_observed", w.background_gcs());
     ctx.count("histories", 1);
     w.teardown(ctx);
 }
@@ -57,7 +61,7 @@ pub fn random_histories(ctx: &mut Ctx) {
             if kind == 2 {
                 profile.reorder = crate::known::ZBDD_REORDER_IN_HISTORIES;
             }
-            let cfg = HistCfg { steps, audit_every: 25, nodes: 1 << 14, cache: 1 << (2 + (h % 5) * 2), threads, nvars, profile };
+            let cfg = HistCfg { steps, audit_every: 25, nodes: 1 << 14, cache: 1 << (2 + (h % 5) * 2), threads, nvars, profile, oom_ok: false };
             let hseed = rng.next();
             let label = format!("c01 h={h} threads={threads} nvars={nvars}");
             match kind {
